@@ -19,11 +19,25 @@ VTK.  The file written by pewlib is read by the small independent reader `read_v
 ElementTree + appended raw blocks; pewlib has no VTK reader): impl.  model = the Lean reader `vtkParse` on
 the Lean rendering `vtkRender` plus the blocks found at the declared offsets, spec = `vtkMetaSpec` and
 `vtkBlockSpec`.  The Lean reader is also run on the real header text, and the whole Lean rendering
-(header text, appended words, closing text) is compared with the real file byte for byte."""
+(header text, appended bytes, closing text) is compared with the real file byte for byte; the Lean byte-level
+reader `readBlockBytes` reads the real appended bytes at the offsets the real header declares.
+
+Sessions.  Several calls in one FRESH process (a fork of a process that has imported pewlib and never called it):
+`textimage.save`, files put there by the harness (standing for another tool), `textimage.load` with its options
+(`delimiter=` one of ',', ';', tab or the default, `name=`), `vtk.save` (other spacings, element sets, shapes; the same
+path again).  The Lean side runs the mechanism `runSession` (a file system threaded through the calls) and the
+specification `sessionSpec` (every load answered from the last put at its path and its own options) on the same calls;
+each load the property speaks about (`Src.image?`) is judged against the image, each .vti file as above: whatever was
+called before must not matter."""
+import base64
+import json
 import math
+import os
 import re
 import struct
+import subprocess
 import sys
+import traceback
 import xml.etree.ElementTree as ET
 
 import numpy as np
@@ -35,7 +49,7 @@ NAN = tok(float("nan"))
 SPECIALS = [0.0, -0.0, float("inf"), float("-inf"), float("nan"), 5e-324, -5e-324, 2.2250738585072014e-308,
             2.225073858507201e-308, 1.7976931348623157e308, -1.7976931348623157e308, 1.0, -1.0, 0.1, 1 / 3,
             123456789.0, 1e22, 1e23, 9007199254740993.0, 0.30000000000000004, 4.35, 2.5e-5]
-NAME_ALPHABET = list("abcXYZ019 _-.:/") + list("&<>\"'") * 3 + ["µ", "é", "²", "λ", "&amp;", "&lt;", "&#38;", "]]>", "<!--"]
+NAME_ALPHABET = list("abcXYZ019 _-.:/") + list("&<>\"'") * 3 + ["µ", "é", "²", "λ", "日", "𝛼", "&amp;", "&lt;", "&#38;", "&#160;", "&quot;", "]]>", "<!--"]
 DELIMS = [",", ";", "\t"]
 
 
@@ -123,6 +137,9 @@ ORDERS = ["C", "F", "T", "step", "rev", "crop"]
 EXTRA_FORMATS = ["<f8", "<f8", "<f4", "<i4", "u1", "<i2"]
 
 
+TEXT_ORDERS = ORDERS + ["swapped", "field", "swapped-T"]  # 2-D float64 arrays only: other byte order, unaligned field view
+
+
 class BadCase(Exception):
     """the abstract case does not describe a buildable input (only a shrinker or a hand-written replay can get here)"""
 
@@ -146,14 +163,29 @@ def alloc(shape, dtype, order):
     raise BadCase(f"order {order!r}")
 
 
-def build_structured(shape, names, vals, layout, order):
+def alloc_text(shape, order):
+    """zeroed 2-D float64 array for `textimage.save`: the layouts of `alloc`, the non-native byte order (also transposed),
+    the float64 member of a packed record (unaligned, strided)"""
+    if order == "swapped":
+        return np.zeros(shape, np.dtype(np.float64).newbyteorder())
+    if order == "swapped-T":
+        return np.zeros(shape[::-1], np.dtype(np.float64).newbyteorder()).T
+    if order == "field":
+        return np.zeros(shape, np.dtype([("pad", "u1"), ("v", "<f8")]))["v"]
+    return alloc(shape, np.float64, order)
+
+
+def build_structured(shape, names, vals, layout, order, swapped=()):
     """the structured float64 image of the case: fields `names` (in this order) holding `vals`, laid out in memory as
     `layout` says - packed in name order (None), a multi-field selection `base[names]` of a record whose fields lie in
     another order and may have other members between them ("select"), or a dtype with explicit offsets and itemsize
     ("offsets")"""
     k = len(names)
+    other = np.dtype(np.float64).newbyteorder()  # float64 in the byte order that is not the machine's
+    if swapped and layout is not None:
+        raise BadCase("fields in the other byte order: packed layout only")
     if layout is None:
-        data = alloc(shape, [(n, np.float64) for n in names], order)
+        data = alloc(shape, [(n, other if i in swapped else np.float64) for i, n in enumerate(names)], order)
     elif layout.get("via") == "select":
         rec = layout["record"]
         if sorted(i for i, _ in rec if i >= 0) != list(range(k)) or any(f != "<f8" for i, f in rec if i >= 0):
@@ -185,7 +217,7 @@ def build_structured(shape, names, vals, layout, order):
     for n, v in zip(names, vals):
         data[n][...] = np.array(v, dtype="<i8").view(np.float64).reshape(shape)
     for n, v in zip(names, vals):  # the input really is the image of the case, whatever the layout
-        if data[n].shape != tuple(shape) or [int(x) for x in data[n].view("<i8").ravel()] != [int(x) for x in v]:
+        if data[n].shape != tuple(shape) or [int(x) for x in data[n].astype(np.float64).view(np.int64).ravel()] != [int(x) for x in v]:
             raise BadCase("the built array does not hold the values of the case")
     return data
 
@@ -200,6 +232,10 @@ def layout_features(data, prefix):
             f.add(prefix + "padded-record")
         if any(o % 8 for o in offs) or data.dtype.itemsize % 8:
             f.add(prefix + "unaligned-field")
+    if data.dtype.names is None and not data.dtype.isnative:
+        f.add(prefix + "non-native-byte-order")
+    if data.dtype.names is None and not data.flags.aligned:
+        f.add(prefix + "unaligned")
     if data.size > 1 and not (data.flags.c_contiguous or data.flags.f_contiguous):
         f.add(prefix + "noncontiguous")
     elif data.size > 1 and data.ndim > 1 and not data.flags.c_contiguous:
@@ -315,7 +351,16 @@ def conv_side(side):
     return {"shape": side["loaded"]["shape"], "data": [ctok(pyfloat(f)) for f in side["loaded"]["fields"]], "dtype": "float64"}
 
 
-def run_load(path):
+def observe_loaded(out):
+    """what `load` returned, canonical: shape, values as bit tokens (NaN canonical), dtype of the values, field names"""
+    names = list(out.dtype.names) if out.dtype.names else None
+    if names is not None and len(names) != 1:
+        return {"odd": str(out.dtype)}
+    flat = out[names[0]] if names else out
+    return {"shape": list(out.shape), "data": [ctok(v) for v in flat.ravel()], "dtype": str(flat.dtype), "names": names}
+
+
+def run_load(path, **options):
     """pewlib's loader on a file: (shape, values as bit tokens with NaN canonical, dtype) or that it raised; whether it
     warned about an empty file; a note"""
     import warnings
@@ -325,11 +370,13 @@ def run_load(path):
     with warnings.catch_warnings(record=True) as caught:
         warnings.simplefilter("always")
         try:
-            out = textimage.load(path)
+            out = textimage.load(path, **options)
         except Exception as e:
             return {"raises": True}, False, f"{type(e).__name__}: {e}"[:200]
-    return ({"shape": list(out.shape), "data": [ctok(v) for v in out.ravel()], "dtype": str(out.dtype)},
-            any("Empty input file" in str(w.message) for w in caught), "")
+    seen = observe_loaded(out)
+    if seen.get("names") is None:
+        seen.pop("names", None)
+    return seen, any("Empty input file" in str(w.message) for w in caught), ""
 
 
 def read_chars(path) -> str:
@@ -543,6 +590,338 @@ def read_vti(raw: bytes) -> dict:
             "head": raw[:m.end()], "tail": trailer, "body_bytes": end}
 
 
+# ----------------------------------------------------------------------------- sessions: several calls in one process
+SESSION_NAMES = ["A", "Ca44", "a b", "µ", "x,y", "name"]
+
+
+def write_text_of(step) -> str:
+    """the text the harness puts into a file for a `write` step: any text, or the model's `saveWith` of an image (one
+    list of separators per row, rows without a list are not written: `List.zip`)"""
+    if "text" in step:
+        return step["text"]
+    c = step["cols"]
+    tokens = [repr(float(untok(t))) for t in step["vals"]]
+    rows = [tokens[i * c:(i + 1) * c] for i in range(step["rows"])]
+    return "".join(join_with(ss, row) + "\n" for ss, row in zip(step["seps"], rows))
+
+
+SPACING_AS = ["tuple", "list", "np.float64", "np.float32", "ndarray"]
+
+
+def spacing_object(case):
+    """the `spacing` argument of the case: a tuple of Python numbers, or a list / NumPy scalars / an array of them"""
+    sp, how = case["spacing"], case.get("spacing_as", "tuple")
+    if len(sp) != 3:
+        raise BadCase("three spacings")
+    if how == "tuple":
+        return tuple(sp)
+    if how == "list":
+        return list(sp)
+    if how == "np.float64":
+        return tuple(np.float64(x) for x in sp)
+    if how == "np.float32":
+        with np.errstate(all="ignore"):  # out of float32's range: inf or 0.0, printed as such
+            return tuple(np.float32(x) for x in sp)
+    if how == "ndarray":
+        return np.array(sp, dtype=np.float64)
+    raise BadCase(f"spacing_as {how!r}")
+
+
+def vtk_write(case, path):
+    """pewlib's vtk.save for the image of the case: the bytes of the file, or what was raised"""
+    from pewlib.io import vtk
+
+    data = build_structured(case["shape"], case["names"], case["vals"], case.get("layout"), case.get("order", "C"),
+                            case.get("swapped_fields", ()))
+    spacing = spacing_object(case)
+    try:
+        vtk.save(str(path) if case.get("strpath") else path, data, spacing)
+        return {"raw": path.read_bytes()}
+    except Exception as e:
+        return {"raises": type(e).__name__, "note": str(e)[:200]}
+
+
+def run_steps(req) -> dict:
+    """(in a fresh process) the calls of a session one after the other; what each returned / wrote"""
+    from pathlib import Path
+
+    from pewlib.io import textimage
+
+    base = Path(req["dir"])
+    results = []
+    for st in req["steps"]:
+        path = base / st["file"]
+        target = str(path) if st.get("strpath") else path
+        op = st["op"]
+        if op == "save":
+            r, c = st["rows"], st["cols"]
+            arr = np.array([untok(t) for t in st["vals"]], dtype=np.float64).reshape(r, c)
+            if st.get("order", "C") != "C":
+                laid = alloc_text([r, c], st["order"])
+                laid[...] = arr
+                arr = laid
+            try:
+                if st.get("header") is None:
+                    textimage.save(target, arr)
+                else:
+                    textimage.save(target, arr, header=st["header"])
+                results.append({"text": read_chars(path)})
+            except Exception as e:
+                results.append({"raises": type(e).__name__, "note": str(e)[:200]})
+        elif op == "write":
+            path.write_text(st["text"], newline="")
+            results.append({"text": st["text"]})
+        elif op == "load":
+            options = {}
+            if st.get("delimiter") is not None:
+                options["delimiter"] = st["delimiter"]
+            if st.get("name") is not None:
+                options["name"] = st["name"]
+            seen, warned, note = run_load(target, **options)
+            results.append({"seen": seen, "warned": warned, "note": note})
+        elif op == "vtk":
+            got = vtk_write(st, path)
+            if "raw" in got:
+                got["raw"] = base64.b64encode(got["raw"]).decode()
+            results.append(got)
+        else:
+            raise BadCase(f"step {op!r}")
+    return {"results": results}
+
+
+def zygote_main() -> int:
+    """a process that has imported pewlib and never calls it: every session (one JSON line on stdin) runs in a fork of
+    it, so each one starts from the state of a fresh interpreter; one JSON line per session on stdout"""
+    core.limit_memory()
+    from pewlib.io import textimage, vtk  # noqa: F401  imported, never called here
+
+    sys.stdout.write("ready\n")
+    sys.stdout.flush()
+    for line in sys.stdin:
+        rfd, wfd = os.pipe()
+        pid = os.fork()
+        if pid == 0:
+            try:
+                os.close(rfd)
+                try:
+                    data = json.dumps(run_steps(json.loads(line)))
+                except BadCase as e:
+                    data = json.dumps({"bad": str(e)})
+                except BaseException:
+                    data = json.dumps({"crash": traceback.format_exc()[-1500:]})
+                with os.fdopen(wfd, "w") as fp:
+                    fp.write(data)
+            finally:
+                os._exit(0)
+        os.close(wfd)
+        with os.fdopen(rfd, "r") as fp:
+            data = fp.read()
+        _, status = os.waitpid(pid, 0)
+        if not data:
+            data = json.dumps({"crash": f"the session process ended with status {status} and no result"})
+        sys.stdout.write(data + "\n")
+        sys.stdout.flush()
+    return 0
+
+
+class Zygote:
+    def __init__(self):
+        self.p = subprocess.Popen([sys.executable, "-m", "harness.c16", "--zygote"], cwd=str(core.VERIF), stdin=subprocess.PIPE,
+                                  stdout=subprocess.PIPE, stderr=subprocess.DEVNULL, text=True, bufsize=1)
+        if self.p.stdout.readline().strip() != "ready":
+            raise core.InternalError("the session process did not start")
+
+    def run(self, req) -> dict:
+        try:
+            self.p.stdin.write(json.dumps(req) + "\n")
+            self.p.stdin.flush()
+            line = self.p.stdout.readline()
+        except BrokenPipeError as e:
+            raise core.InternalError("the session process died") from e
+        if not line:
+            raise core.InternalError("the session process closed its pipe")
+        rep = json.loads(line)
+        if "crash" in rep:
+            raise core.InternalError("session: " + rep["crash"])
+        return rep
+
+
+_ZYGOTES = {}
+
+
+def zygote() -> Zygote:
+    """one per harness process (a forked worker starts its own)"""
+    z = _ZYGOTES.get(os.getpid())
+    if z is None or z.p.poll() is not None:
+        z = _ZYGOTES[os.getpid()] = Zygote()
+    return z
+
+
+def gen_vtk_case(rng):
+    r, c = gen_shape2(rng)
+    shape = [r, c] if rng.random() < 0.45 else [r, c, rng.choice([1, 1, 2, 3, 4])]
+    nf = rng.choice([1, 1, 2, 3, 4])
+    names = []
+    while len(names) < nf:
+        n = "".join(rng.choice(NAME_ALPHABET) for _ in range(rng.randint(1, 6)))
+        if rng.random() < 0.3:
+            n = rng.choice(["A", "Ca44", "P31", "Eu153"])
+        if n not in names and n.strip() == n and "  " not in n:
+            names.append(n)
+    u = rng.random()
+    if u < 0.04:  # a very long name
+        n = "".join(rng.choice(NAME_ALPHABET) for _ in range(rng.choice([200, 255, 256, 1000, 3000]))).strip() or "A"
+        if "  " not in n and n not in names:
+            names[rng.randrange(nf)] = n
+    elif u < 0.07:  # a large image
+        shape = rng.choice([[rng.randint(40, 110), rng.randint(40, 110)], [rng.randint(20, 30), rng.randint(20, 30), rng.randint(4, 12)],
+                            [1, 1, rng.randint(2000, 5000)], [1, rng.randint(2000, 5000)], [rng.randint(2000, 5000), 1]])
+        names = names[:2]
+        nf = len(names)
+    size = int(np.prod(shape))
+    spacing = [rng.choice([1, 1.0, 0.5, 35.0, 1e-3, 2.5e-5, 1234.5678, rng.uniform(1e-6, 1e6), rng.uniform(1e-6, 1e6), 1e16, 1e22,
+                           123456789012345680.0, 5e-324, 1.7976931348623157e308, 1 / 3, 10 ** 20]) for _ in range(3)]
+    case = {"kind": "vtk", "shape": shape, "names": names, "vals": [[gen_value(rng) for _ in range(size)] for _ in names],
+            "spacing": spacing}
+    layout = gen_layout(rng, nf)
+    if layout is not None:
+        case["layout"] = layout
+    if rng.random() < 0.5:
+        case["order"] = rng.choice(ORDERS[1:])
+    if rng.random() < 0.15:
+        case["spacing_as"] = rng.choice(SPACING_AS[1:])
+    if rng.random() < 0.1:
+        case["strpath"] = True
+    return case
+
+
+def gen_large_text(rng):
+    """images of 400 .. 6000 values: one long row (a line of more than 64 KiB), one long column, a few long rows, many rows"""
+    n = rng.choice([400, 1500, 3000, 3500, 5000, 6000])
+    r, c = rng.choice([(1, n), (1, n), (n, 1), (2, n // 2), (3, n // 3), (n // 40, 40), (n // 12, 12)])
+    if rng.random() < 0.5:
+        vals = [gen_value(rng) for _ in range(r * c)]
+    else:  # full-precision finite values: every field 22 - 25 characters
+        vals = [tok(rng.uniform(-1, 1) * 10.0 ** rng.randint(-300, 300)) for _ in range(r * c)]
+    if rng.random() < 0.6:
+        case = {"kind": "text", "rows": r, "cols": c, "vals": vals, "header": rng.choice([None, None, "large"])}
+        if rng.random() < 0.3:
+            case["order"] = rng.choice(TEXT_ORDERS[1:])
+        return case
+    style = rng.choice([";", "\t", "mixed", "mixed"])
+    seps = [[rng.choice(DELIMS) if style == "mixed" else style for _ in range(c - 1)] for _ in range(r)]
+    return {"kind": "delims", "rows": r, "cols": c, "vals": vals, "seps": seps}
+
+
+def gen_put(rng, file):
+    """a step that puts a text image at `file`, and the delimiter the file uses throughout (None: a mixture / unknown)"""
+    r, c = gen_shape2(rng)
+    vals = gen_vals(rng, r, c)
+    u = rng.random()
+    if u < 0.5:
+        st = {"op": "save", "file": file, "rows": r, "cols": c, "vals": vals, "header": None}
+        if rng.random() < 0.2:
+            st["header"] = "".join(rng.choice(list("abc XYZ,;#01\t") + ["\n", "1;2", " "]) for _ in range(rng.randint(0, 6)))
+        if rng.random() < 0.2:
+            st["order"] = rng.choice(TEXT_ORDERS[1:])
+        return st, ","
+    if u < 0.93:
+        style = rng.choice([",", ";", "\t", ";", "\t", "mixed"])
+        seps = [[rng.choice(DELIMS) if style == "mixed" else style for _ in range(c - 1)] for _ in range(r)]
+        return {"op": "write", "file": file, "rows": r, "cols": c, "vals": vals, "seps": seps}, (style if style in DELIMS else None)
+    if rng.random() < 0.7:
+        return {"op": "write", "file": file, "text": foreign_text(gen_foreign(rng)["lines"])}, None
+    return {"op": "write", "file": file, "text": gen_rawtext(rng)["text"]}, None
+
+
+def gen_load(rng, file, style, explicit=None):
+    """a load of `file` (whose delimiter is `style`) with options; `explicit`: True / False forces a named / default delimiter"""
+    u = rng.random()
+    if explicit is False or (explicit is None and u < 0.45):
+        d = None
+    elif style in DELIMS and u < 0.85:
+        d = style
+    else:
+        d = rng.choice(DELIMS)
+    st = {"op": "load", "file": file, "delimiter": d, "name": rng.choice(SESSION_NAMES) if rng.random() < 0.2 else None}
+    if rng.random() < 0.1:
+        st["strpath"] = True
+    return st
+
+
+def gen_session_text(rng):
+    steps, styles = [], {}
+
+    def put(file):
+        st, style = gen_put(rng, file)
+        styles[file] = style
+        steps.append(st)
+
+    if rng.random() < 0.5:  # a load that names its delimiter, later a default load (of the same or another file)
+        put(0)
+        steps.append(gen_load(rng, 0, styles[0], explicit=True))
+        if rng.random() < 0.75:
+            put(rng.choice([0, 1]))
+        for _ in range(rng.choice([0, 0, 1])):
+            steps.append(gen_load(rng, rng.choice(sorted(styles)), styles[0]))
+        f = rng.choice(sorted(styles))
+        steps.append(gen_load(rng, f, styles[f], explicit=False))
+    else:
+        put(0)
+        for _ in range(rng.randint(2, 4)):
+            if rng.random() < 0.3:
+                put(rng.choice(sorted(styles) + [len(styles)]))
+            else:
+                f = rng.choice(sorted(styles))
+                steps.append(gen_load(rng, f, styles[f]))
+        f = rng.choice(sorted(styles))
+        steps.append(gen_load(rng, f, styles[f]))
+    return steps
+
+
+def gen_session_vtk(rng):
+    """several vtk.save calls: other spacings, other element sets, other shapes, the same path again or another one"""
+    base = gen_vtk_case(rng)
+    steps = [{**base, "op": "vtk", "file": 0}]
+    for i in range(1, rng.randint(2, 4)):
+        prev = steps[-1]
+        u = rng.random()
+        if u < 0.3:
+            nxt = gen_vtk_case(rng)
+        elif u < 0.55:  # the same image, another spacing
+            nxt = {k: v for k, v in prev.items() if k not in ("op", "file")}
+            nxt["spacing"] = [rng.choice([1, 2, 0.25, 10.0, 1e-3, rng.uniform(1e-6, 1e6)]) for _ in range(3)]
+        elif u < 0.8:  # some of its elements, in another order
+            k = len(prev["names"])
+            pick = rng.sample(range(k), rng.randint(1, k))
+            nxt = {"kind": "vtk", "shape": prev["shape"], "names": [prev["names"][j] for j in pick],
+                   "vals": [prev["vals"][j] for j in pick], "spacing": prev["spacing"]}
+            if rng.random() < 0.5:
+                nxt["order"] = rng.choice(ORDERS)
+        else:  # the same elements on a smaller image
+            shape = [max(1, n - rng.choice([0, 1, 1])) for n in prev["shape"]]
+            size = int(np.prod(shape))
+            nxt = {"kind": "vtk", "shape": shape, "names": prev["names"], "vals": [[gen_value(rng) for _ in range(size)] for _ in prev["names"]],
+                   "spacing": prev["spacing"]}
+        steps.append({**nxt, "op": "vtk", "file": rng.choice([0, 0, i])})
+    return steps
+
+
+def gen_session(rng):
+    u = rng.random()
+    if u < 0.62:
+        steps = gen_session_text(rng)
+    elif u < 0.88:
+        steps = gen_session_vtk(rng)
+    else:  # text and vtk calls interleaved, each kind in its own order
+        a, b = gen_session_text(rng), gen_session_vtk(rng)
+        steps = []
+        while a or b:
+            src = a if (a and (not b or rng.random() < 0.5)) else b
+            steps.append(src.pop(0))
+    return {"kind": "session", "steps": steps}
+
+
 # ----------------------------------------------------------------------------- the property
 class C16(Prop):
     id = "C16"
@@ -564,7 +943,15 @@ class C16(Prop):
             "between), dtypes with explicit offsets and padding, in every memory order above; the file is read back by "
             "an independent VTI reader (every header field, origin and spacing included, against the Lean "
             "specification), its header text by the Lean reader, and the whole file is compared byte for byte with "
-            "the Lean rendering; non-trivial = boundary shape, special value, escaped name, several elements, mixed "
+            "the Lean rendering (header text, every appended byte, closing text), the appended bytes also by the Lean "
+            "byte-level reader; spacings as tuples, lists, NumPy scalars and arrays, extreme spacings, very long and "
+            "non-ASCII names, large images (to 12100 cells), paths given as str; text arrays also in the other byte "
+            "order and as unaligned field views, large images (one line of more than 64 KiB, 6000 values); SESSIONS "
+            "(16 % of the generated cases, 47 targeted): 2 - 10 calls in one fresh process - save, files of another "
+            "tool, load with delimiter ',' ';' tab or default and name=, vtk.save with other spacings / element sets / "
+            "shapes on the same or another path - every load judged against the Lean specification of the file it "
+            "reads (half of the text sessions: a load that names its delimiter before a default load), every .vti as "
+            "above; non-trivial = boundary shape, special value, escaped name, several elements, mixed "
             "delimiters, a foreign-file feature or a non-default memory layout; distinct by canonical case hash")
     trusted = ["'%.18g' printing followed by Python's float is the identity on finite float64, zeros and infinities and maps "
                "NaN to NaN, and float ignores spaces around a number (the model's opaque fmt/conv: `Clean.roundtrip`, "
@@ -572,7 +959,10 @@ class C16(Prop):
                "genfromtxt's loose converter is float with a NaN fallback (harness `pyfloat`, the model's total `conv`)",
                "savetxt and path.open('r') use the same text encoding, '\\n' is written as '\\n' (POSIX)",
                "xml.etree.ElementTree decodes the five predefined entities (the model's `unescape`)",
-               "the independent reader `read_vti` in harness/c16.py"]
+               "the independent reader `read_vti` in harness/c16.py",
+               "a float64's 8 bytes are its bit pattern, lowest byte first on a little-endian machine (the driver's `tokBytes`, "
+               "the model's opaque `enc`)",
+               "a fork of a process that imported pewlib and never called it is in the state of a fresh interpreter (sessions)"]
     assumptions = ["NaN payload and sign are not part of 'NaN preserved' in the text form",
                    "Spacing is checked to parse as three floats within 1e-6 relative of the requested spacing, no more",
                    "which element the VTK header names as active scalar is not compared (it has to be one of them)",
@@ -580,6 +970,14 @@ class C16(Prop):
                    "model's rendering only moves the case out of the theorem's reach (hypothesis_excluded), the "
                    "loader model then reads that file",
                    "warnings and exception classes of the loader on files outside the property's class are not compared",
+                   "a load the property does not speak about - a file written by save read with a named delimiter (which "
+                   "delimiter save writes is not observed), a file read with a delimiter it does not use, any other text read "
+                   "with a named delimiter - is compared with the Lean model and the result recorded only "
+                   "(session:load:outside-the-property-text:*), never a verdict (notes/SECTION13.md 13.2)",
+                   "the field name of the view returned for name= is recorded, not compared; its shape and values are",
+                   "one-character delimiters only; the comments= option of load is never passed",
+                   "structured images with a float64 field in the byte order that is not the machine's are not generated "
+                   "(pewlib writes their bytes unswapped under the machine's byte_order: see notes/EC16.md)",
                    "headers holding a carriage return and element names holding control or white-space characters "
                    "other than a space are not generated (see notes/D16.md: pewlib does not round-trip them)"]
 
@@ -588,6 +986,8 @@ class C16(Prop):
         lists them)"""
         if case.get("kind") == "text" and "\r" in (case.get("header") or ""):
             return "C16-header-carriage-return"
+        if any(c.get("swapped_fields") for c in [case] + [st for st in case.get("steps", []) if st.get("op") == "vtk"]):
+            return "C16-vtk-field-in-other-byte-order"
         if case.get("kind") == "vtk":
             bad = [ch for n in case["names"] for ch in n if ch in "\t\r\n" or (ord(ch) < 32)]
             if any(ch in "\t\r\n" for ch in bad) and all(ch in "\t\r\n" for ch in bad):
@@ -599,47 +999,33 @@ class C16(Prop):
     # ------------------------------------------------------------------ generation
     def generate(self, rng, tier):
         k = rng.random()
-        if k < 0.12:
+        if k < 0.10:
             return gen_foreign(rng)
-        if k < 0.16:
+        if k < 0.135:
             return gen_rawtext(rng)
-        if k < 0.40:
+        if k < 0.33:
             r, c = gen_shape2(rng)
             header = None
             if rng.random() < 0.25:  # also multi-line headers and headers that look like data
                 header = "".join(rng.choice(list("abc XYZ,;#01\t") + ["\n", "\n", "1,2", " "]) for _ in range(rng.randint(0, 8)))
             case = {"kind": "text", "rows": r, "cols": c, "vals": gen_vals(rng, r, c), "header": header}
-            if rng.random() < 0.35:
-                case["order"] = rng.choice(ORDERS[1:])
+            if rng.random() < 0.4:
+                case["order"] = rng.choice(TEXT_ORDERS[1:])
+            if rng.random() < 0.15:
+                case["strpath"] = True
             return case
-        if k < 0.45:
+        if k < 0.355:
+            return gen_large_text(rng)
+        if k < 0.39:
             return gen_late_switch(rng)
-        if k < 0.60:
+        if k < 0.49:
             r, c = gen_shape2(rng)
             style = rng.choice([",", ";", "\t", "mixed", "mixed"])
             seps = [[rng.choice(DELIMS) if style == "mixed" else style for _ in range(c - 1)] for _ in range(r)]
             return {"kind": "delims", "rows": r, "cols": c, "vals": gen_vals(rng, r, c), "seps": seps}
-        # vtk
-        r, c = gen_shape2(rng)
-        shape = [r, c] if rng.random() < 0.45 else [r, c, rng.choice([1, 1, 2, 3, 4])]
-        nf = rng.choice([1, 1, 2, 3, 4])
-        names = []
-        while len(names) < nf:
-            n = "".join(rng.choice(NAME_ALPHABET) for _ in range(rng.randint(1, 6)))
-            if rng.random() < 0.3:
-                n = rng.choice(["A", "Ca44", "P31", "Eu153"])
-            if n not in names and n.strip() == n and "  " not in n:
-                names.append(n)
-        size = int(np.prod(shape))
-        spacing = [rng.choice([1, 1.0, 0.5, 35.0, 1e-3, 2.5e-5, 1234.5678, rng.uniform(1e-6, 1e6)]) for _ in range(3)]
-        case = {"kind": "vtk", "shape": shape, "names": names, "vals": [[gen_value(rng) for _ in range(size)] for _ in names],
-                "spacing": spacing}
-        layout = gen_layout(rng, nf)
-        if layout is not None:
-            case["layout"] = layout
-        if rng.random() < 0.5:
-            case["order"] = rng.choice(ORDERS[1:])
-        return case
+        if k < 0.65:
+            return gen_session(rng)
+        return gen_vtk_case(rng)
 
     def targeted(self, tier):
         one = tok(1.0)
@@ -695,8 +1081,38 @@ class C16(Prop):
             yield {"kind": "text", "rows": 2, "cols": 1, "vals": [tok(1.0), tok(2.5)], "header": "a\r5"}
         if "C16-name-white-space" in registered:
             yield {"kind": "vtk", "shape": [1, 1], "names": ["a\tb"], "vals": [[tok(1.0)]], "spacing": [1, 1, 1]}
+        if "C16-vtk-field-in-other-byte-order" in registered:
+            yield {"kind": "vtk", "shape": [1, 1], "names": ["A"], "vals": [[tok(1.0)]], "spacing": [1, 1, 1], "swapped_fields": [0]}
         if "C16-name-control-character" in registered:
             yield {"kind": "vtk", "shape": [1, 1], "names": ["a\x01b"], "vals": [[tok(1.0)]], "spacing": [1, 1, 1]}
+        # sessions: several calls in one process, each judged on its own
+        img = lambda r, c, k=0: [tok(SPECIALS[(i * 5 + k) % len(SPECIALS)]) for i in range(r * c)]
+        save = lambda f, r, c, k=0, **kw: {"op": "save", "file": f, "rows": r, "cols": c, "vals": img(r, c, k), "header": None, **kw}
+        wr = lambda f, r, c, d, k=0: {"op": "write", "file": f, "rows": r, "cols": c, "vals": img(r, c, k), "seps": [[d] * (c - 1)] * r}
+        ld = lambda f, d=None, name=None: {"op": "load", "file": f, "delimiter": d, "name": name}
+        sess = lambda *steps: {"kind": "session", "steps": list(steps)}
+        for d in DELIMS:
+            for r, c in ((1, 1), (1, 3), (3, 1), (2, 2), (4, 6)):
+                yield sess(wr(0, r, c, d), ld(0, d), save(1, r, c, 3), ld(1), ld(0))  # a named delimiter, then default loads
+                yield sess(save(0, r, c), ld(0, d), ld(0))
+            yield sess(wr(0, 2, 3, d), ld(0, d, "A"), ld(0, None, "B"), ld(0))
+            yield sess(save(0, 3, 2), ld(0), wr(1, 3, 2, d), ld(1), ld(1, d), ld(0, ","), ld(0))
+        yield sess(save(0, 4, 6), ld(0), save(0, 1, 1, 2), ld(0), save(0, 2, 5, 4), ld(0, ","))  # a shorter file over a longer one
+        yield sess(save(0, 2, 2, header="two\nlines;x\ty"), ld(0, ","), ld(0), ld(0, ",", "a b"))
+        yield sess(save(0, 3, 3, order="T"), save(1, 3, 3, 7, order="rev"), ld(1), ld(0), ld(1, ","), ld(0, ","))
+        yield sess({"op": "write", "file": 0, "text": "1;2\t3 # c\r\n\r\n4;5\t6"}, ld(0), ld(0, ";"), ld(0, "\t"), ld(0, ","), ld(0))
+        yield sess({"op": "write", "file": 0, "text": " 1 ;2 \n;\n3;x\n"}, ld(0, ";"), ld(0), ld(0, ";", "A"))
+        yield sess({"op": "write", "file": 0, "text": "1\t2\n3\n"}, ld(0, "\t"), save(1, 2, 2), ld(1))  # the first load raises
+        vt = lambda f, shape, names, spacing, k=0, **kw: {
+            "op": "vtk", "file": f, "kind": "vtk", "shape": shape, "names": names, "spacing": spacing,
+            "vals": [[tok(float(100 * j + i + k)) for i in range(int(np.prod(shape)))] for j in range(len(names))], **kw}
+        yield sess(vt(0, [3, 4, 2], ["A", "B<", "C"], [1, 1, 1]), vt(0, [1, 1], ["B<"], [0.5, 2.0, 1e-3], 7), vt(0, [2, 2], ["C", "A"], [1, 1, 1]))
+        yield sess(vt(0, [2, 3], ["A", "B"], [1, 2, 3]), vt(1, [2, 3], ["A", "B"], [3.5, 2.5, 1.5]), vt(2, [2, 3], ["B"], [1, 2, 3]),
+                   vt(3, [2, 3], ["B", "A", "C&"], [1, 2, 3]))
+        yield sess(vt(0, [1, 1], ["A"], [1, 1, 1]), vt(0, [4, 4, 3], ["A", "&amp;"], [1, 1, 1], 5), vt(0, [1, 1, 1], ["A"], [2, 2, 2]))
+        yield sess(vt(0, [2, 2], ["A", "B"], [1, 1, 1], layout={"via": "select", "record": [[1, "<f8"], [0, "<f8"]], "align": False}),
+                   vt(0, [2, 2], ["A", "B"], [1, 1, 1], 9), vt(1, [2, 2], ["B", "A"], [1, 1, 1], order="F"))
+        yield sess(save(0, 2, 3), vt(0, [2, 3], ["A"], [1, 1, 1]), ld(0, ","), vt(0, [1, 2], ["A", "B"], [2, 2, 2]), ld(0))
         # vtk: every small shape, one and two elements, names with each special character
         for shape in ([1, 1], [1, 4], [4, 1], [2, 3], [3, 2], [1, 1, 1], [1, 1, 3], [2, 3, 4], [3, 1, 2], [1, 3, 2]):
             size = int(np.prod(shape))
@@ -723,8 +1139,23 @@ class C16(Prop):
                     yield {**base, "order": order, "layout": {"via": "select", "record": [[i, "<f8"] for i in back], "align": False}}
         yield {"kind": "vtk", "shape": [2, 2], "names": ["A"], "vals": [[tok(float(i)) for i in range(4)]], "spacing": [1, 1, 1],
                "layout": {"via": "offsets", "offsets": [8], "itemsize": 24}}
-        for order in ORDERS[1:]:
+        for order in TEXT_ORDERS[1:]:
             yield {"kind": "text", "rows": 3, "cols": 4, "vals": [tok(SPECIALS[i]) for i in range(12)], "header": None, "order": order}
+            yield {"kind": "text", "rows": 4, "cols": 1, "vals": [tok(SPECIALS[i + 5]) for i in range(4)], "header": "h", "order": order, "strpath": True}
+        # the spacing given as other objects than a tuple of Python numbers, the path as a string, very long names
+        for how in SPACING_AS[1:]:
+            yield {"kind": "vtk", "shape": [2, 3], "names": ["A", "B"], "vals": [[tok(float(i)) for i in range(6)], [tok(-float(i)) for i in range(6)]],
+                   "spacing": [0.1, 35, 2.5e-5], "spacing_as": how, "strpath": how == "list"}
+        for n in (200, 256, 3000):
+            yield {"kind": "vtk", "shape": [1, 2], "names": ["N" * n, "é&" * (n // 2)], "vals": [[one, one], [one, one]], "spacing": [1, 1, 1]}
+        # large images: a line of more than 64 KiB, a long column, wide rows; a large VTK image
+        big = lambda n: [tok((((i * 7919) % 20011) - 10000) / 7.0 * 10.0 ** ((i * 31) % 600 - 300)) for i in range(n)]
+        yield {"kind": "text", "rows": 1, "cols": 5000, "vals": big(5000), "header": None}
+        yield {"kind": "text", "rows": 5000, "cols": 1, "vals": big(5000), "header": None}
+        yield {"kind": "text", "rows": 3, "cols": 1500, "vals": big(4500), "header": "x", "order": "T"}
+        yield {"kind": "delims", "rows": 2, "cols": 3000, "vals": big(6000), "seps": [[DELIMS[(i + j) % 3] for j in range(2999)] for i in range(2)]}
+        yield {"kind": "vtk", "shape": [70, 90], "names": ["A", "B"], "vals": [big(6300), big(6300)[::-1]], "spacing": [1, 1, 1]}
+        yield {"kind": "vtk", "shape": [20, 25, 9], "names": ["A"], "vals": [big(4500)], "spacing": [1, 1, 1], "order": "F"}
         # delimiter files whose second style of separator first appears after 1 KiB ... 128 KiB
         for n, at in enumerate(SWITCH_AT):
             for m, (head, tail) in enumerate([(",", ";"), (",", "\t"), (",", "mixed"), (",", "one"), (";", ","), ("\t", "one"), ("noncomma", ",")]):
@@ -743,6 +1174,8 @@ class C16(Prop):
         kind = case["kind"]
         if kind == "vtk":
             return self.eval_vtk(case, ctx)
+        if kind == "session":
+            return self.eval_session(case, ctx)
         if kind in ("foreign", "rawtext"):
             return self.eval_foreign(case, ctx)
         from pewlib.io import textimage
@@ -752,26 +1185,33 @@ class C16(Prop):
         arr = np.array([untok(t) for t in toks], dtype=np.float64).reshape(r, c)
         path = ctx.tmpdir() / "image.csv"
         feats = shape_features(r, c) | classify(toks)
+        if r * c >= 400:
+            feats.add("text:large")
         extra_impl, extra_model = {}, {}
         if kind == "text":
             header = case["header"]
             if case.get("order", "C") != "C":  # the same image in another memory layout
                 try:
-                    laid = alloc([r, c], np.float64, case["order"])
+                    laid = alloc_text([r, c], case["order"])
                 except BadCase as e:
                     return outcome(None, None, None, spec_ok=True, model_ok=True, undetermined=True, note=f"bad case: {e}")
                 laid[...] = arr
                 arr = laid
                 feats |= {"text:order=" + case["order"]} | layout_features(arr, "text:")
+            target = str(path) if case.get("strpath") else path
+            if case.get("strpath"):
+                feats.add("text:path-is-str")
             try:
                 if header is None:
-                    textimage.save(path, arr)
+                    textimage.save(target, arr)
                 else:
-                    textimage.save(path, arr, header=header)
+                    textimage.save(target, arr, header=header)
                     feats.add("header" + (":multi-line" if "\n" in header else ""))
             except Exception as e:
                 return outcome({"raises": True, "where": "save", "type": type(e).__name__}, None, None, spec_ok=False, model_ok=False)
             text = read_chars(path)  # the bytes pewlib wrote
+            if r * c >= 400 and max(len(ln) for ln in text.split("\n")) > 65536:
+                feats.add("text:line-longer-than-64KiB")
             tokens = ["%.18g" % untok(t) for t in toks]  # the model's opaque printer, evaluated by Python
             rep = ctx.driver.call("c16.text", rows=r, cols=c, tokens=tokens, header=header or "", file=text)
             # the theorem speaks about the model's rendering: it covers this very file when the two are the same bytes
@@ -793,7 +1233,7 @@ class C16(Prop):
             if rep["rendered"] != text:  # only a hand-written replay gets here (separator lists that do not fit the columns)
                 return outcome(None, None, None, spec_ok=True, model_ok=True, undetermined=True, hyp=False,
                                note="bad case: the harness file is not the model's saveWith rendering")
-        impl, _, note = run_load(path)
+        impl, _, note = run_load(str(path) if case.get("strpath") else path)
         model = conv_side(rep["real"])
         spec_fields = rep["spec"]
         spec = {"shape": spec_fields["shape"], "data": [ctok(pyfloat(f)) for f in spec_fields["fields"]], "dtype": "float64"}
@@ -846,36 +1286,202 @@ class C16(Prop):
                 feats |= shape_features(*side["shape"]) | classify(side["data"])
         return outcome(impl, model, spec, hyp=in_class, features=feats, note=(note_a + " " + note_b).strip())
 
-    def eval_vtk(self, case, ctx):
-        from pewlib.io import vtk
-
-        shape, names = case["shape"], case["names"]
-        layout, order = case.get("layout"), case.get("order", "C")
+    def eval_session(self, case, ctx):
+        """several calls in one fresh process: every file put there by `save` (or by the harness, standing for another
+        tool), every `load` with its own options, every `vtk.save`; each load is judged against the Lean specification
+        of the file it reads, each .vti file as in `judge_vtk` - whatever was called before"""
+        steps = case["steps"]
+        sent, put_files = [], set()
         try:
-            data = build_structured(shape, names, case["vals"], layout, order)
+            for st in steps:
+                op = st.get("op")
+                if op in ("save", "write") and "text" not in st:
+                    if st["rows"] < 1 or st["cols"] < 1 or len(st["vals"]) != st["rows"] * st["cols"]:
+                        raise BadCase("values / shape mismatch")
+                if op == "save":
+                    if st.get("order", "C") not in TEXT_ORDERS:
+                        raise BadCase("order")
+                    sent.append({**st, "file": f"f{int(st['file'])}.csv"})
+                    put_files.add(st["file"])
+                elif op == "write":
+                    sent.append({"op": "write", "file": f"f{int(st['file'])}.csv", "text": write_text_of(st)})
+                    put_files.add(st["file"])
+                elif op == "load":
+                    if st["file"] not in put_files:
+                        raise BadCase("load of a file no earlier step wrote")
+                    if st["delimiter"] is not None and len(st["delimiter"]) != 1:
+                        raise BadCase("the model reads one-character delimiters")
+                    sent.append({**st, "file": f"f{int(st['file'])}.csv"})
+                elif op == "vtk":
+                    build_structured(st["shape"], st["names"], st["vals"], st.get("layout"), st.get("order", "C"), st.get("swapped_fields", ()))
+                    sent.append({**st, "file": f"v{int(st['file'])}.vti"})
+                else:
+                    raise BadCase(f"step {op!r}")
+            for st in sent:
+                json.dumps(st).encode()  # what cannot be sent cannot be run
+        except (BadCase, UnicodeEncodeError) as e:
+            return outcome(None, None, None, spec_ok=True, model_ok=True, undetermined=True, hyp=False, note=f"bad case: {e}")
+        rep = zygote().run({"dir": str(ctx.tmpdir()), "steps": sent})
+        if "bad" in rep:
+            return outcome(None, None, None, spec_ok=True, model_ok=True, undetermined=True, hyp=False, note=f"bad case: {rep['bad']}")
+        results = rep["results"]
+        # the text calls, for the Lean model of a session
+        text_at, lean_steps = [], []
+        for i, (st, res) in enumerate(zip(steps, results)):
+            if st["op"] == "save":
+                if "raises" in res:
+                    return outcome({"step": i, "raises": True, "where": "save", "type": res["raises"]}, None, None, spec_ok=False, model_ok=False,
+                                   note=res.get("note", ""))
+                src = {"kind": "saved", "rows": st["rows"], "cols": st["cols"], "header": st.get("header") or "",
+                       "tokens": ["%.18g" % untok(ctok(untok(t))) for t in st["vals"]]}
+                lean_steps.append({"op": "put", "path": st["file"], "src": src, "real": res["text"]})
+            elif st["op"] == "write":
+                if "text" in st:
+                    src = {"kind": "other", "text": st["text"]}
+                else:
+                    src = {"kind": "delimited", "rows": st["rows"], "cols": st["cols"], "seps": st["seps"],
+                           "tokens": [repr(float(untok(t))) for t in st["vals"]]}
+                lean_steps.append({"op": "put", "path": st["file"], "src": src, "real": res["text"]})
+            elif st["op"] == "load":
+                lean_steps.append({"op": "load", "path": st["file"], "delimiter": st["delimiter"], "name": st["name"]})
+            else:
+                continue
+            text_at.append(i)
+        lean = ctx.driver.call("c16.session", steps=lean_steps) if lean_steps else None
+        impl, model, spec, notes = [], [], [], []
+        hyp = True
+        feats = {"session", f"session:steps={min(len(steps), 5)}{'+' if len(steps) > 5 else ''}"}
+        named_before, default_before, puts_seen, vtk_seen = set(), False, {}, {}
+        for i, (st, res) in enumerate(zip(steps, results)):
+            op = st["op"]
+            if op == "vtk":
+                got = {**res, "raw": base64.b64decode(res["raw"])} if "raw" in res else res
+                vi, vm, vs, vh, vf, vn = self.judge_vtk(st, got, ctx)
+                impl.append(vi), model.append(vm), spec.append(vs)
+                hyp = hyp and vh
+                feats |= vf | {"session:vtk"}
+                if vn:
+                    notes.append(f"step {i}: {vn}")
+                if st["file"] in vtk_seen:
+                    prev = vtk_seen[st["file"]]
+                    feats.add("session:vtk:same-path-again")
+                    if len(got.get("raw", b"")) < prev:
+                        feats.add("session:vtk:shorter-file-over-longer")
+                for prev in [p for p in steps[:i] if p["op"] == "vtk"][-1:]:
+                    if prev["names"] != st["names"]:
+                        feats.add("session:vtk:elements-differ-from-previous")
+                    if prev["spacing"] != st["spacing"]:
+                        feats.add("session:vtk:spacing-differs-from-previous")
+                    if prev["shape"] != st["shape"]:
+                        feats.add("session:vtk:shape-differs-from-previous")
+                vtk_seen[st["file"]] = len(got.get("raw", b""))
+                continue
+            j = text_at.index(i)
+            if lean["mech"][j] != lean["spec"][j]:  # equal by theorem `session_stateless`
+                raise AssertionError(f"the session mechanism and its specification differ at step {i}")
+            if op in ("save", "write"):
+                impl.append({"put": True}), model.append({"put": True}), spec.append({"put": True})
+                same = lean["rendered"][j] == res["text"]
+                if op == "save":
+                    feats.add("save:file=model-rendering" if same else "save:file!=model-rendering")
+                    feats |= shape_features(st["rows"], st["cols"]) | classify(st["vals"])
+                    if st.get("header") is not None:
+                        feats.add("header")
+                hyp = hyp and same
+                if st["file"] in puts_seen:
+                    feats.add("session:file-overwritten")
+                    if len(res["text"]) < puts_seen[st["file"]]:
+                        feats.add("session:shorter-file-over-longer")
+                puts_seen[st["file"]] = len(res["text"])
+                if "text" in st:
+                    feats.add("session:file-of-another-tool:any-text")
+                elif op == "write":
+                    feats.add("session:file-of-another-tool:delimited")
+                continue
+            # a load
+            seen = dict(res["seen"])
+            names = seen.pop("names", None)
+            d, name = st["delimiter"], st["name"]
+            dname = {None: "default", ",": "comma", ";": "semicolon", "\t": "tab"}.get(d, "other")
+            feats.add("session:load:delimiter=" + dname)
+            if name is not None:  # the field of the view is recorded, the property speaks of shape and values
+                feats.add("session:load:name")
+                if "raises" not in seen:
+                    feats.add("session:load:name:field-as-requested" if names == [name] else "session:load:name:field-not-as-requested")
+            elif names is not None:
+                seen["names"] = names
+            if d is None and any(x != "default" for x in named_before):
+                feats.add("session:default-load-after-load-with-delimiter")
+            if d is None and any(x not in ("default", "comma") for x in named_before):
+                feats.add("session:default-load-after-load-with-other-delimiter")
+            if d is not None and default_before:
+                feats.add("session:load-with-delimiter-after-default-load")
+            named_before.add(dname)
+            default_before = default_before or d is None
+            if len(puts_seen) > 1:
+                feats.add("session:several-files")
+            m = conv_side(lean["real"][j])
+            if "raises" not in m:
+                m = {"shape": m["shape"], "data": m["data"], "dtype": "float64"}
+            want = lean["expected"][j]
+            if want is not None:
+                sp = {"shape": want["shape"], "data": [ctok(pyfloat(f)) for f in want["fields"]], "dtype": "float64"}
+                feats.add("session:load:judged-by-the-property")
+                if conv_side(lean["spec"][j]) != {**sp}:  # the Lean session model on the model's rendering: equal by theorem
+                    notes.append(f"step {i}: the session specification differs from the image (Clean violated?)")
+                    hyp = False
+            else:  # the property does not say what this call returns (a saved file read with a named delimiter, a file
+                # read with a delimiter it does not use, any other text): the difference from the model is recorded only
+                feats.add("session:load:outside-the-property-text")
+                feats.add("session:load:outside-the-property-text:" + ("as-modelled" if seen == m else "not-as-modelled (recorded only)"))
+                seen = m = sp = {"not-judged": True}
+            impl.append(seen), model.append(m), spec.append(sp)
+            if res["note"]:
+                notes.append(f"step {i}: {res['note']}")
+        return outcome(impl, model, spec, hyp=hyp, features=feats, note="; ".join(notes)[:600])
+
+    def eval_vtk(self, case, ctx):
+        try:
+            got = vtk_write(case, ctx.tmpdir() / "image.vti")
         except BadCase as e:
             return outcome(None, None, None, spec_ok=True, model_ok=True, undetermined=True, note=f"bad case: {e}")
-        path = ctx.tmpdir() / "image.vti"
-        spacing = tuple(case["spacing"])
+        impl, model, spec, hyp, feats, note = self.judge_vtk(case, got, ctx)
+        return outcome(impl, model, spec, hyp=hyp, features=feats, note=note)
+
+    def judge_vtk(self, case, got, ctx):
+        """the file `vtk.save` wrote for the image of the case (`got`: its bytes, or what was raised) against the Lean
+        model and specification: (impl, model, spec, hyp, features, note)"""
+        shape, names = case["shape"], case["names"]
+        layout, order = case.get("layout"), case.get("order", "C")
+        data = build_structured(shape, names, case["vals"], layout, order, case.get("swapped_fields", ()))  # for the layout features only
+        spacing = spacing_object(case)
         note = ""
         n0, n1 = shape[0], shape[1]
         n2 = shape[2] if len(shape) == 3 else 1
         endian = "LittleEndian" if sys.byteorder == "little" else "BigEndian"  # the model's opaque byte-order token
-        sp_tokens = [str(x) for x in spacing]  # the model's opaque spacing tokens: what an f-string prints
+        sp_tokens = [format(x, "") for x in spacing]  # the model's opaque spacing tokens: what an f-string prints
         raw, f, real_head = b"", None, ""
-        try:
-            vtk.save(path, data, spacing)
-            raw = path.read_bytes()
-            f = read_vti(raw)
-            real_head = f["head"].decode()
-        except Malformed as e:
-            impl, f = {"wellformed": False}, None
-            note = f"malformed: {e}"
-        except Exception as e:
-            impl, f, real_head = {"raises": type(e).__name__}, None, ""
-            note = str(e)[:200]
+        if "raw" in got:
+            raw = got["raw"]
+            try:
+                f = read_vti(raw)
+                real_head = f["head"].decode()
+            except Malformed as e:
+                impl, f = {"wellformed": False}, None
+                note = f"malformed: {e}"
+            except Exception as e:
+                impl, f, real_head = {"raises": type(e).__name__}, None, ""
+                note = str(e)[:200]
+        else:
+            impl, f, real_head = {"raises": got["raises"]}, None, ""
+            note = got.get("note", "")
+        # the appended bytes of the real file, for the Lean byte-level reader (left out when they are many)
+        body = raw[len(f["head"]):len(f["head"]) + f["body_bytes"]] if f is not None else None
         rep = ctx.driver.call("c16.vtk", n0=n0, n1=n1, n2=n2, endian=endian, spacing=sp_tokens, head=real_head,
+                              body=body.hex() if body is not None and len(body) <= 262144 else None,
                               fields=[{"name": n, "data": vals} for n, vals in zip(names, case["vals"])])
+        if "byte_blocks" in rep["model"] and rep["model"].pop("byte_blocks") != rep["model"]["blocks"]:
+            raise AssertionError("the byte-level reader and the word-level reader of the model differ")  # equal by theorem
         want_spacing = [tok(float(t)) for t in sp_tokens]
 
         def num(tokens, reference=None):
@@ -903,7 +1509,8 @@ class C16(Prop):
             ext = side["meta"]["whole"]
             ncells8 = (ext[1] - ext[0]) * (ext[3] - ext[2]) * (ext[5] - ext[4]) * 8 if len(ext) == 6 else None
             return {"meta": meta_view(side["meta"]), "blocks": side["blocks"], "appended": side["appended"],
-                    "ncells_times_8": [ncells8] * len(side["meta"]["arrays"]), "lean_reader": meta_view(side["meta"])}
+                    "ncells_times_8": [ncells8] * len(side["meta"]["arrays"]), "lean_reader": meta_view(side["meta"]),
+                    "lean_reader_blocks": side["blocks"]}
 
         model, spec = view(rep["model"]), view(rep["spec"])
         hyp = False
@@ -919,11 +1526,16 @@ class C16(Prop):
             if rep["real_meta"] is None:
                 feats.add("vtk:header-outside-lean-reader-subset")
                 impl["lean_reader"] = impl["meta"]  # the independent reader's view stands in; nothing compared twice
+            # the model's byte-level reader on the real appended bytes, at the offsets the real header declares
+            if rep["real_blocks"] is not None:
+                impl["lean_reader_blocks"] = rep["real_blocks"]
+                feats.add("vtk:appended-bytes-read-by-lean-reader")
+            else:
+                impl["lean_reader_blocks"] = impl["blocks"]
             # the model's rendering of the whole file against the bytes pewlib wrote
             r = rep["rendered"]
             if r is not None:
-                bo = "<" if endian == "LittleEndian" else ">"
-                mine = r["head"].encode() + b"".join(struct.pack(bo + "q", int(w)) for w in r["words"]) + r["tail"].encode()
+                mine = r["head"].encode() + bytes.fromhex(r["body_hex"]) + r["tail"].encode()  # every byte from the model
                 same = mine == raw
                 feats.add("vtk:file=model-rendering" if same else "vtk:file!=model-rendering")
                 if not same and r["head"].encode() == f["head"]:
@@ -939,14 +1551,65 @@ class C16(Prop):
             feats.add("vtk:name-contains-entity-text")
         if any(math.isnan(untok(t)) for vals in case["vals"] for t in vals):
             feats.add("value:nan")
-        if any(not isinstance(x, float) for x in spacing):
+        if case.get("swapped_fields"):
+            feats.add("vtk:field-in-other-byte-order")
+        if any(isinstance(x, int) for x in spacing):
             feats.add("vtk:integer-spacing")
+        if case.get("spacing_as", "tuple") != "tuple":
+            feats.add("vtk:spacing-as=" + case["spacing_as"])
+        if case.get("strpath"):
+            feats.add("vtk:path-is-str")
+        if any(len(n) >= 200 for n in names):
+            feats.add("vtk:very-long-name")
+        if any(ord(ch) > 127 for n in names for ch in n):
+            feats.add("vtk:non-ascii-name")
+        if n0 * n1 * n2 >= 2000:
+            feats.add("vtk:large")
         feats |= {x for vals in case["vals"] for x in classify(vals)}
-        return outcome(impl, model, spec, hyp=hyp, features=feats, note=note)
+        return impl, model, spec, hyp, feats, note
 
     # ------------------------------------------------------------------ shrinking
     def shrink(self, case):
         one = tok(1.0)
+        if case["kind"] == "session":
+            steps = case["steps"]
+            for i in range(len(steps)):
+                yield {**case, "steps": steps[:i] + steps[i + 1:]}
+            for i, st in enumerate(steps):
+                simpler = []
+                if st["op"] == "load":
+                    if st["name"] is not None:
+                        simpler.append({**st, "name": None})
+                    if st["delimiter"] is not None:
+                        simpler.append({**st, "delimiter": None})
+                elif st["op"] == "vtk":
+                    for cand in self.shrink({k: v for k, v in st.items() if k not in ("op", "file")}):
+                        simpler.append({**cand, "op": "vtk", "file": st["file"]})
+                elif "text" in st:
+                    for cand in self.shrink({"kind": "rawtext", "text": st["text"]}):
+                        simpler.append({**st, "text": cand["text"]})
+                else:
+                    if st.get("header") is not None:
+                        simpler.append({**st, "header": None})
+                    if st.get("order", "C") != "C":
+                        simpler.append({k: v for k, v in st.items() if k != "order"})
+                    r, c = st["rows"], st["cols"]
+                    grid = [st["vals"][a * c:(a + 1) * c] for a in range(r)]
+                    if r > 1:
+                        cand = {**st, "rows": r - 1, "vals": [v for row in grid[:-1] for v in row]}
+                        if "seps" in st:
+                            cand["seps"] = st["seps"][:-1]
+                        simpler.append(cand)
+                    if c > 1:
+                        cand = {**st, "cols": c - 1, "vals": [v for row in grid for v in row[:-1]]}
+                        if "seps" in st:
+                            cand["seps"] = [ss[:-1] for ss in st["seps"]]
+                        simpler.append(cand)
+                    if any(v != one for v in st["vals"]):
+                        simpler.append({**st, "vals": [one] * len(st["vals"])})
+                for x in simpler:
+                    yield {**case, "steps": steps[:i] + [x] + steps[i + 1:]}
+            return
         if case["kind"] == "rawtext":
             t = case["text"]
             n = len(t) // 2
@@ -1012,7 +1675,9 @@ class C16(Prop):
                 yield {**case, "header": None}
             if case.get("order", "C") != "C":
                 yield {k: v for k, v in case.items() if k != "order"}
-            for i, v in enumerate(case["vals"]):
+            if case.get("strpath"):
+                yield {k: v for k, v in case.items() if k != "strpath"}
+            for i, v in enumerate(case["vals"][:64]):
                 if v != one:
                     yield {**case, "vals": case["vals"][:i] + [one] + case["vals"][i + 1:]}
         else:
@@ -1058,6 +1723,9 @@ class C16(Prop):
                         m = n[:j] + n[j + 1:]
                         if m and m not in names:
                             yield {**case, "names": names[:i] + [m] + names[i + 1:]}
+            for key in ("spacing_as", "strpath"):
+                if key in case:
+                    yield {k: v for k, v in case.items() if k != key}
             if case["spacing"] != [1, 1, 1]:
                 yield {**case, "spacing": [1, 1, 1]}
             flat = [tok(float(i)) for i in range(int(np.prod(shape)))]
@@ -1069,4 +1737,6 @@ class C16(Prop):
 PROP = C16()
 
 if __name__ == "__main__":
+    if sys.argv[1:] == ["--zygote"]:
+        sys.exit(zygote_main())
     sys.exit(core.main(PROP, "harness.c16"))
